@@ -7,7 +7,7 @@ rm -rf $S/verif; mkdir -p $S
 [ -d $S/repo ] || git -C /repo worktree add -q --detach $S/repo HEAD
 git -C $S/repo checkout -q --detach $(git -C /repo rev-parse HEAD) && git -C $S/repo checkout -q -- . && git -C $S/repo clean -fdq
 mkdir -p $S/verif && rsync -a --exclude harness/target --exclude lean/.lake --exclude .git --exclude replays /verif/ $S/verif/
-sed -i "s#path = \"/repo\"#path = \"$S/repo\"#" $S/verif/harness/Cargo.toml
+sed -i "s#path = \"/repo\"#path = \"$S/repo\"#" $S/verif/harness/Cargo.toml $S/verif/probe/Cargo.toml
 sed -i "s#/repo/Cargo.lock#$S/repo/Cargo.lock#" $S/verif/tools/gen_nd.py
 sed -i "s#/verif/lean/Dtr/Generated#$S/verif/lean/Dtr/Generated#" $S/verif/tools/gen_nd.py
 export VERIF_CORPUS=$S/verif/corpus
